@@ -125,8 +125,9 @@ CLAIMS = {
             "necessary condition: every field-by-field index writer emits exactly the (field number, wire type) set its reader's "
             "stub dispatches on, nested sub-builders match the nested message types, stubs written whole are the stubs read "
             "back, hand-written readers' expected tags are emitted, and the derived pack/unpack tables of scrunch's messages "
-            "agree; plus one sibling cross-check: all bit-vector implementations reject the same indices in access (>= len) and "
-            "rank (> len).  Everything numerical in C19 (search positions, counts, rank/select/access, record mapping, extraction) is "
+            "agree; plus two small structural clauses: all bit-vector implementations reject the same indices in access (>= len) "
+            "and rank (> len), and a backward-search step returns an empty range whenever one of its input ranges is empty.  "
+            "Everything numerical in C19 (search positions, counts, rank/select/access, record mapping, extraction) is "
             "NOT decided by static analysis and is not claimed.", "§4 C19"),
 }
 
